@@ -23,6 +23,19 @@ Section QueueCL.
   Definition cl_at_consumer (enq_first : bool) (q : list M) (o : offer M) (f : fout M) : list M :=
     if enq_first && f_enq_fire f then cl_enq q (o_msg o) else q.
 
+  (* the deque as a peek-only WATCHER block must find it, by the ordering constraints each class declares for peek:
+       NormalQueueCL  M(peek) < M(enq.rdy), M(peek) < M(deq.rdy) : before both other blocks -> the start-of-cycle deque
+       PipeQueueCL    M(peek) < M(enq)                              : never sees a message enqueued in this cycle
+       BypassQueueCL  M(enq) < M(peek)                              : always sees the message enqueued in this cycle
+     peek and deq are unordered for Pipe/Bypass: after_deq says on which side of the consumer's block the watcher ran *)
+  Definition cl_at_watcher (k : qkind) (after_deq : bool) (q : list M) (o : offer M) (f : fout M) : list M :=
+    match k with
+    | Normal => q
+    | Pipe => if after_deq && f_deq_fire f then tl q else q
+    | Bypass => let q1 := if f_enq_fire f then cl_enq q (o_msg o) else q in
+                if after_deq && f_deq_fire f then tl q1 else q1
+    end.
+
   Definition cl_step (k : qkind) (n : nat) (enq_first : bool) (q : list M) (o : offer M) : list M * fout M :=
     match k with
     | Pipe =>
